@@ -35,6 +35,22 @@ UNITS["v_closure_runner"] = dict(
              ensures=[("C13.cleanup.restore_or_remove", "cleanup restores the saved binding or removes the variable, and touches nothing else",
                        "final(state).vars@ == (match (ident, data) {\n    (Some(i), Some(v)) => old(state).vars@.insert(i.id, v),\n    (Some(i), None) => old(state).vars@.remove(i.id),\n    _ => old(state).vars@ })")],
              safety_id="C13.cleanup.safety"),
+        dict(id="insert", file=CLOSURE, impl=None, name="insert",
+             orig_sig="fn insert(state: &mut RuntimeState, ident: Option<&Ident>, data: Value) -> Option<Value>",
+             sig="pub fn insert(state: &mut RuntimeState, ident: Option<&Ident>, data: Value) -> (r: Option<Value>)",
+             desugar=["and_then"],
+             ensures=[("C13.insert.binds_and_returns_previous", "insert binds the parameter (when it has a name) and returns the binding it shadows; nothing else changes",
+                       "(match ident {\n    Some(i) => final(state).vars@ == old(state).vars@.insert(i.id, data) && r == lookup(old(state).vars@, i.id),\n    None => final(state).vars@ == old(state).vars@ && r is None })")],
+             safety_id="C13.insert.safety"),
+        dict(id="ident", file=CLOSURE, impl=RUNNER_IMPL, name="ident",
+             orig_sig="fn ident(&self, index: usize) -> Option<&Ident>",
+             wrap=("impl Runner {", "}"), sig="pub fn ident(&self, index: usize) -> (r: Option<&Ident>)",
+             desugar=["and_then"],
+             rewrites=[dict(**{"from": r"self\s*\.variables\s*\.get\(index\)", "to": "(if index < self.variables.len() { Some(&self.variables[index]) } else { None })", "regex": True, "count": 1, "why": "slice::get by definition"}),
+                       dict(**{"from": "(!v.is_empty()).then_some(v)", "to": "(if !v.is_empty() { Some(v) } else { None })", "count": 1, "why": "bool::then_some by definition"})],
+             ensures=[("C13.ident.spec", "the i-th closure parameter is the i-th variable unless it is missing or the empty (`_`) name",
+                       "opt_deref(r) == spec_ident(*self, index as int)")],
+             safety_id="C13.ident.safety"),
         dict(id="run_key_value", file=CLOSURE, impl=RUNNER_IMPL, name="run_key_value",
              orig_sig="fn run_key_value( &self, ctx: &mut Context, key: &str, value: &Value, ) -> Result<Value, ExpressionError>",
              wrap=("impl Runner {", "}"),
